@@ -1,8 +1,119 @@
-(* C02 -- property theorems only (statements about Model/Tenalg.v). *)
-From Coq Require Import List Arith ZArith.
-From TLV Require Import Base.Shape Base.PyList Base.Tensor Base.BigSum Model.Base Model.Tenalg Proofs.TenalgProofs.
+(* C02 -- property theorems only.  Statements are about the model of tensorly/tenalg (Model/Tenalg.v),
+   for EVERY carrier F with a record of operations Op satisfying the commutative-ring laws (so in
+   particular for the executed instances ZR = Z and GR = Z[i], and for R, C), every order, shape with
+   non-empty index space, mode and option combination.  Spec-side vocabulary (Proofs/TenalgProofs*.v):
+   mentry M tr j i = M[j,i] or conj(M[i,j]) under transpose;  kr_entry Ms is r = prod_k Ms_k[is_k, r];
+   kron_entry Ms is js = prod_k Ms_k[is_k, js_k];  wv w r / maskv m row = the weight / mask entry (1 if absent);
+   mats R Ms = all matrices well-formed with R columns;  bsum / ssum = finite sums over a range / an index space. *)
+From Coq Require Import List Arith ZArith Ring_theory.
+From TLV Require Import Base.Shape Base.PyList Base.Tensor Base.BigSum Model.Base Model.Tenalg
+  Proofs.TenalgProofs Proofs.TenalgProofsKR Proofs.TenalgProofsEinsum.
 Import ListNotations.
 
+Definition ring_of {F} (Op : rops F) := ring_theory (r0 Op) (r1 Op) (radd Op) (rmul Op) (rsub Op) (ropp Op) (@eq F).
+
+(* the executed carriers satisfy the hypotheses of every theorem below *)
 Theorem C02_instances_are_rings : ring_laws ZR /\ ring_laws GR /\ conj_laws ZR /\ conj_laws GR.
 Proof. exact (conj ZR_ring (conj GR_ring (conj ZR_conj GR_conj))). Qed.
 Print Assumptions C02_instances_are_rings.
+
+(* (T x_k M)[.., j, ..] = sum_i M[j,i] * T[.., i, ..]   (conjugate transpose under transpose=True) *)
+Theorem C02_mode_dot_core : forall (F : Type) (Op : rops F) (T M : tensor F) (k : nat) (tr : bool) (a b : nat),
+  wf T -> wf M -> k < ndim T -> 0 < prod (shape T) -> shape M = [a; b] ->
+  (if tr then a else b) = nth k (shape T) 0 -> 0 < (if tr then b else a) ->
+  exists R, mode_dot Op T M k tr = Ok R /\ wf R /\
+    shape R = set_nth k (if tr then b else a) (shape T) /\
+    forall idx, inb (shape R) idx ->
+      get (r0 Op) R idx =
+      bsum Op (nth k (shape T) 0) (fun i => rmul Op (mentry Op M tr (nth k idx 0) i) (get (r0 Op) T (set_nth k i idx))).
+Proof. exact @mode_dot_matrix_spec. Qed.
+Print Assumptions C02_mode_dot_core.
+
+(* (T x_k v)[idx without mode k] = sum_i v[i] * T[.., i, ..] *)
+Theorem C02_mode_dot_core_vector : forall (F : Type) (Op : rops F) (T v : tensor F) (k : nat) (tr : bool) (n : nat),
+  wf T -> k < ndim T -> 0 < prod (shape T) -> shape v = [n] -> n = nth k (shape T) 0 ->
+  exists R, mode_dot Op T v k tr = Ok R /\ wf R /\ shape R = remove_nth k (shape T) /\
+    forall ridx, inb (shape R) ridx ->
+      get (r0 Op) R ridx = bsum Op n (fun i => rmul Op (get (r0 Op) v [i]) (get (r0 Op) T (insert_at k i ridx))).
+Proof. exact @mode_dot_vector_spec. Qed.
+Print Assumptions C02_mode_dot_core_vector.
+
+(* the equation built by einsum_tenalg.mode_dot, under the generic einsum semantics, is the same formula *)
+Theorem C02_mode_dot_einsum : forall (F : Type) (Op : rops F), ring_of Op ->
+  forall (T M : tensor F) (k : nat) (tr : bool) (a b : nat),
+  wf T -> wf M -> k < ndim T -> 0 < prod (shape T) -> shape M = [a; b] ->
+  (if tr then a else b) = nth k (shape T) 0 -> 0 < (if tr then b else a) ->
+  exists R, mode_dot_e Op T M k tr = Ok R /\ wf R /\
+    shape R = set_nth k (if tr then b else a) (shape T) /\
+    forall idx, inb (shape R) idx ->
+      get (r0 Op) R idx =
+      bsum Op (nth k (shape T) 0) (fun i => rmul Op (mentry Op M tr (nth k idx 0) i) (get (r0 Op) T (set_nth k i idx))).
+Proof. exact @mode_dot_e_matrix_spec. Qed.
+Print Assumptions C02_mode_dot_einsum.
+
+Corollary C02_mode_dot_backends_agree : forall (F : Type) (Op : rops F), ring_of Op ->
+  forall (T M : tensor F) (k : nat) (tr : bool) (a b : nat),
+  wf T -> wf M -> k < ndim T -> 0 < prod (shape T) -> shape M = [a; b] ->
+  (if tr then a else b) = nth k (shape T) 0 -> 0 < (if tr then b else a) ->
+  mode_dot Op T M k tr = mode_dot_e Op T M k tr.
+Proof. exact @mode_dot_backends_agree. Qed.
+Print Assumptions C02_mode_dot_backends_agree.
+
+(* KR[(i_1..i_n), r] = prod_k A_k[i_k, r] * w_r * mask[(i_1..i_n)], any number of matrices (also a single one), any skip *)
+Theorem C02_khatri_rao_core : forall (F : Type) (Op : rops F), ring_of Op ->
+  forall (Ms : list (tensor F)) (w mask : option (tensor F)) (skip : option nat) (R : nat),
+  let Ms' := skipl skip Ms in
+  Ms' <> [] -> mats R Ms' ->
+  exists K, khatri_rao Op Ms w mask skip = Ok K /\ wf K /\ shape K = [prod (map nrows Ms'); R] /\
+    forall is_ r, inb (map nrows Ms') is_ -> r < R ->
+      get (r0 Op) K [ravel (map nrows Ms') is_; r]
+      = rmul Op (rmul Op (kr_entry Op Ms' is_ r) (wv Op w r)) (maskv Op mask (ravel (map nrows Ms') is_)).
+Proof. exact @khatri_rao_spec. Qed.
+Print Assumptions C02_khatri_rao_core.
+
+(* KRON[(i_1..i_n), (j_1..j_n)] = prod_k A_k[i_k, j_k], any number of matrices, skip, reverse *)
+Theorem C02_kronecker_core : forall (F : Type) (Op : rops F), ring_of Op ->
+  forall (Ms : list (tensor F)) (skip : option nat) (reverse : bool),
+  let l := if reverse then rev (skipl skip Ms) else skipl skip Ms in
+  l <> [] -> kmats l ->
+  exists K, kronecker Op Ms skip reverse = Ok K /\ wf K /\ shape K = [prod (map nrows l); prod (map ncols l)] /\
+    forall is_ js, inb (map nrows l) is_ -> inb (map ncols l) js ->
+      get (r0 Op) K [ravel (map nrows l) is_; ravel (map ncols l) js] = kron_entry Op l is_ js.
+Proof. exact @kronecker_spec. Qed.
+Print Assumptions C02_kronecker_core.
+
+(* MTTKRP_k[i, r] = sum over the indices of the other modes of T[.., i, ..] * conj(w_r * prod_{l<>k} A_l[idx_l, r]) *)
+Theorem C02_mttkrp_core : forall (F : Type) (Op : rops F), ring_of Op ->
+  forall (T : tensor F) (w : option (tensor F)) (fs : list (tensor F)) (k R : nat),
+  wf T -> k < ndim T -> 0 < prod (shape T) -> 0 < R ->
+  map nrows fs = shape T -> mats R fs -> 2 <= ndim T ->
+  exists Mt, mttkrp Op T w fs k = Ok Mt /\ wf Mt /\ shape Mt = [nth k (shape T) 0; R] /\
+    forall i r, i < nth k (shape T) 0 -> r < R ->
+      get (r0 Op) Mt [i; r] =
+      ssum Op (remove_nth k (shape T))
+        (fun ridx => rmul Op (get (r0 Op) T (insert_at k i ridx))
+                             (rconj Op (rmul Op (kr_entry Op (remove_nth k fs) ridx r) (wv Op w r)))).
+Proof. exact @mttkrp_spec. Qed.
+Print Assumptions C02_mttkrp_core.
+
+(* non-vacuity: the hypotheses are met by concrete Gaussian-integer operands and the model computes on them *)
+Example C02_nonvacuous_mode_dot :
+  let T : tensor GI := mk [2; 1; 2] [(1, 1); (0, 2); (-1, 0); (3, -1)]%Z in
+  let M : tensor GI := mk [2; 3] [(1, 0); (0, 1); (2, 0); (0, -1); (1, 1); (0, 0)]%Z in
+  wf T /\ wf M /\ 2 < ndim T /\ 0 < prod (shape T) /\ shape M = [2; 3] /\
+  (if true then 2 else 3) = nth 2 (shape T) 0 /\
+  mode_dot GR T M 2 true = mode_dot_e GR T M 2 true /\
+  mode_dot GR T M 2 true = Ok (mk [2; 1; 3] [(-1, 1); (3, 1); (2, 2); (0, 3); (2, -3); (-2, 0)]%Z).
+Proof. cbv zeta. unfold wf, ndim. cbn [shape data]. repeat split; try (vm_compute; reflexivity); vm_compute; auto with arith. Qed.
+
+Example C02_nonvacuous_khatri_rao :
+  let A : tensor Z := mk [2; 2] [1; 2; 3; 4]%Z in
+  let B : tensor Z := mk [1; 2] [5; 6]%Z in
+  let C : tensor Z := mk [2; 2] [1; 0; -1; 2]%Z in
+  let w : tensor Z := mk [2] [2; 3]%Z in
+  skipl (Some 1) [A; B; C] <> [] /\ mats 2 (skipl (Some 1) [A; B; C]) /\
+  khatri_rao ZR [A; B; C] (Some w) None (Some 1) = Ok (mk [4; 2] [2; 0; -2; 12; 6; 0; -6; 24]%Z).
+Proof.
+  cbv zeta. split; [discriminate|]. split; [|vm_compute; reflexivity].
+  repeat constructor.
+Qed.
